@@ -4,12 +4,19 @@
 
 use crate::app::measurement::*;
 use crate::app::parse::options::ParseOptions;
-use crate::app::{BufferSize, ConnectStrategy, FunctionCode, Listener, MaybeAsync, ResponseHeader, RetryStrategy, Sequence, Timeout, Timestamp};
-use crate::decode::{AppDecodeLevel, DecodeLevel, LinkDecodeLevel, PhysDecodeLevel, TransportDecodeLevel};
+use crate::app::{
+    BufferSize, ConnectStrategy, FunctionCode, Listener, MaybeAsync, ResponseHeader, RetryStrategy,
+    Sequence, Timeout, Timestamp,
+};
+use crate::decode::{
+    AppDecodeLevel, DecodeLevel, LinkDecodeLevel, PhysDecodeLevel, TransportDecodeLevel,
+};
 use crate::link::reader::LinkModes;
 use crate::link::{EndpointAddress, LinkErrorMode};
 use crate::master::*;
-use crate::tcp::{ClientState, ConnectOptions, EndpointList, PostConnectionHandler, SimpleConnectHandler};
+use crate::tcp::{
+    ClientState, ConnectOptions, EndpointList, PostConnectionHandler, SimpleConnectHandler,
+};
 use crate::verif::kernel::{self, Sim};
 use crate::verif::nodes::net::SimNetwork;
 use crate::verif::refcodec::app::PointType;
@@ -60,14 +67,18 @@ impl AssocCfg {
         c.response_timeout = Timeout::from_millis(self.response_timeout_ms).expect("timeout");
         c.disable_unsol_classes = ec(self.disable_unsol);
         c.enable_unsol_classes = ec(self.enable_unsol);
-        c.startup_integrity_classes = Classes::new(self.startup_integrity & 8 != 0, ec(self.startup_integrity));
+        c.startup_integrity_classes =
+            Classes::new(self.startup_integrity & 8 != 0, ec(self.startup_integrity));
         c.auto_time_sync = match self.auto_time_sync {
             1 => Some(TimeSyncProcedure::Lan),
             2 => Some(TimeSyncProcedure::NonLan),
             3 => Some(TimeSyncProcedure::DirectWriteAbsTime),
             _ => None,
         };
-        c.auto_tasks_retry_strategy = RetryStrategy::new(Duration::from_millis(self.retry_min_ms), Duration::from_millis(self.retry_max_ms));
+        c.auto_tasks_retry_strategy = RetryStrategy::new(
+            Duration::from_millis(self.retry_min_ms),
+            Duration::from_millis(self.retry_max_ms),
+        );
         c.keep_alive_timeout = self.keep_alive_ms.map(Duration::from_millis);
         c.auto_integrity_scan_on_buffer_overflow = self.integrity_on_overflow;
         c.event_scan_on_events_available = ec(self.event_scan);
@@ -89,6 +100,9 @@ pub struct MasterCfg {
     pub assocs: Vec<AssocCfg>,
     /// master wall clock at virtual time zero (ms since epoch)
     pub wall_clock_base: u64,
+    /// the association handler has no clock (get_current_time returns None)
+    #[serde(default)]
+    pub no_clock: bool,
 }
 
 impl MasterCfg {
@@ -104,6 +118,7 @@ impl MasterCfg {
             connect_timeout_ms: None,
             assocs: vec![AssocCfg::quiet(1024)],
             wall_clock_base: 1_700_000_000_000,
+            no_clock: false,
         }
     }
 }
@@ -125,21 +140,73 @@ pub struct RxMeas {
 
 #[derive(Clone, Debug, PartialEq)]
 pub enum MEv {
-    BeginFragment { assoc: u16, read_type: String, seq: u8, uns: bool, fir: bool, fin: bool, iin: (u8, u8) },
-    Meas { assoc: u16, m: RxMeas },
-    AbsTime { assoc: u16, t: u64 },
-    Other { assoc: u16, what: String },
-    EndFragment { assoc: u16, seq: u8 },
-    TaskStart { assoc: u16, task: String, func: u8, seq: u8 },
-    TaskSuccess { assoc: u16, task: String, func: u8, seq: u8 },
-    TaskFail { assoc: u16, task: String, err: String },
-    Unsolicited { assoc: u16, dup: bool, seq: u8 },
+    BeginFragment {
+        assoc: u16,
+        read_type: String,
+        seq: u8,
+        uns: bool,
+        fir: bool,
+        fin: bool,
+        iin: (u8, u8),
+    },
+    Meas {
+        assoc: u16,
+        m: RxMeas,
+    },
+    AbsTime {
+        assoc: u16,
+        t: u64,
+    },
+    Other {
+        assoc: u16,
+        what: String,
+    },
+    EndFragment {
+        assoc: u16,
+        seq: u8,
+    },
+    TaskStart {
+        assoc: u16,
+        task: String,
+        func: u8,
+        seq: u8,
+    },
+    TaskSuccess {
+        assoc: u16,
+        task: String,
+        func: u8,
+        seq: u8,
+    },
+    TaskFail {
+        assoc: u16,
+        task: String,
+        err: String,
+    },
+    Unsolicited {
+        assoc: u16,
+        dup: bool,
+        seq: u8,
+    },
     Client(String),
-    GetTime { assoc: u16, t: Option<u64> },
+    GetTime {
+        assoc: u16,
+        t: Option<u64>,
+    },
     /// a user request completed: (user op id, outcome text, ok?)
-    UserDone { id: u64, ok: bool, outcome: String },
+    UserDone {
+        id: u64,
+        ok: bool,
+        outcome: String,
+    },
     /// FileReader callbacks of user request `id`: what = opened / block / aborted / completed
-    File { id: u64, what: String, block: u32, len: usize, content_ok: bool, detail: String },
+    File {
+        id: u64,
+        what: String,
+        block: u32,
+        len: usize,
+        content_ok: bool,
+        detail: String,
+    },
 }
 
 #[derive(Default)]
@@ -176,7 +243,16 @@ fn time_of(t: Option<Time>) -> Option<(u64, bool)> {
 }
 
 impl Reader {
-    fn meas(&mut self, info: HeaderInfo, ptype: PointType, index: u16, value: f64, flags: Flags, time: Option<Time>, bytes: Vec<u8>) {
+    fn meas(
+        &mut self,
+        info: HeaderInfo,
+        ptype: PointType,
+        index: u16,
+        value: f64,
+        flags: Flags,
+        time: Option<Time>,
+        bytes: Vec<u8>,
+    ) {
         self.rec.lock().unwrap().push(MEv::Meas {
             assoc: self.assoc,
             m: RxMeas {
@@ -208,15 +284,34 @@ impl ReadHandler for Reader {
         MaybeAsync::ready(())
     }
     fn end_fragment(&mut self, _read_type: ReadType, header: ResponseHeader) -> MaybeAsync<()> {
-        self.rec.lock().unwrap().push(MEv::EndFragment { assoc: self.assoc, seq: header.control.seq.value() });
+        self.rec.lock().unwrap().push(MEv::EndFragment {
+            assoc: self.assoc,
+            seq: header.control.seq.value(),
+        });
         MaybeAsync::ready(())
     }
-    fn handle_binary_input(&mut self, info: HeaderInfo, iter: &mut dyn Iterator<Item = (BinaryInput, u16)>) {
+    fn handle_binary_input(
+        &mut self,
+        info: HeaderInfo,
+        iter: &mut dyn Iterator<Item = (BinaryInput, u16)>,
+    ) {
         for (v, i) in iter {
-            self.meas(info, PointType::Binary, i, v.value as u8 as f64, v.flags, v.time, vec![]);
+            self.meas(
+                info,
+                PointType::Binary,
+                i,
+                v.value as u8 as f64,
+                v.flags,
+                v.time,
+                vec![],
+            );
         }
     }
-    fn handle_double_bit_binary_input(&mut self, info: HeaderInfo, iter: &mut dyn Iterator<Item = (DoubleBitBinaryInput, u16)>) {
+    fn handle_double_bit_binary_input(
+        &mut self,
+        info: HeaderInfo,
+        iter: &mut dyn Iterator<Item = (DoubleBitBinaryInput, u16)>,
+    ) {
         for (v, i) in iter {
             let x = match v.value {
                 DoubleBit::Intermediate => 0.0,
@@ -227,58 +322,156 @@ impl ReadHandler for Reader {
             self.meas(info, PointType::DoubleBit, i, x, v.flags, v.time, vec![]);
         }
     }
-    fn handle_binary_output_status(&mut self, info: HeaderInfo, iter: &mut dyn Iterator<Item = (BinaryOutputStatus, u16)>) {
+    fn handle_binary_output_status(
+        &mut self,
+        info: HeaderInfo,
+        iter: &mut dyn Iterator<Item = (BinaryOutputStatus, u16)>,
+    ) {
         for (v, i) in iter {
-            self.meas(info, PointType::BinaryOutputStatus, i, v.value as u8 as f64, v.flags, v.time, vec![]);
+            self.meas(
+                info,
+                PointType::BinaryOutputStatus,
+                i,
+                v.value as u8 as f64,
+                v.flags,
+                v.time,
+                vec![],
+            );
         }
     }
     fn handle_counter(&mut self, info: HeaderInfo, iter: &mut dyn Iterator<Item = (Counter, u16)>) {
         for (v, i) in iter {
-            self.meas(info, PointType::Counter, i, v.value as f64, v.flags, v.time, vec![]);
+            self.meas(
+                info,
+                PointType::Counter,
+                i,
+                v.value as f64,
+                v.flags,
+                v.time,
+                vec![],
+            );
         }
     }
-    fn handle_frozen_counter(&mut self, info: HeaderInfo, iter: &mut dyn Iterator<Item = (FrozenCounter, u16)>) {
+    fn handle_frozen_counter(
+        &mut self,
+        info: HeaderInfo,
+        iter: &mut dyn Iterator<Item = (FrozenCounter, u16)>,
+    ) {
         for (v, i) in iter {
-            self.meas(info, PointType::FrozenCounter, i, v.value as f64, v.flags, v.time, vec![]);
+            self.meas(
+                info,
+                PointType::FrozenCounter,
+                i,
+                v.value as f64,
+                v.flags,
+                v.time,
+                vec![],
+            );
         }
     }
-    fn handle_analog_input(&mut self, info: HeaderInfo, iter: &mut dyn Iterator<Item = (AnalogInput, u16)>) {
+    fn handle_analog_input(
+        &mut self,
+        info: HeaderInfo,
+        iter: &mut dyn Iterator<Item = (AnalogInput, u16)>,
+    ) {
         for (v, i) in iter {
             self.meas(info, PointType::Analog, i, v.value, v.flags, v.time, vec![]);
         }
     }
-    fn handle_analog_output_status(&mut self, info: HeaderInfo, iter: &mut dyn Iterator<Item = (AnalogOutputStatus, u16)>) {
+    fn handle_analog_output_status(
+        &mut self,
+        info: HeaderInfo,
+        iter: &mut dyn Iterator<Item = (AnalogOutputStatus, u16)>,
+    ) {
         for (v, i) in iter {
-            self.meas(info, PointType::AnalogOutputStatus, i, v.value, v.flags, v.time, vec![]);
+            self.meas(
+                info,
+                PointType::AnalogOutputStatus,
+                i,
+                v.value,
+                v.flags,
+                v.time,
+                vec![],
+            );
         }
     }
-    fn handle_octet_string<'a>(&mut self, info: HeaderInfo, iter: &'a mut dyn Iterator<Item = (&'a [u8], u16)>) {
+    fn handle_octet_string<'a>(
+        &mut self,
+        info: HeaderInfo,
+        iter: &'a mut dyn Iterator<Item = (&'a [u8], u16)>,
+    ) {
         for (v, i) in iter {
-            self.meas(info, PointType::OctetString, i, 0.0, Flags::new(0), None, v.to_vec());
+            self.meas(
+                info,
+                PointType::OctetString,
+                i,
+                0.0,
+                Flags::new(0),
+                None,
+                v.to_vec(),
+            );
         }
     }
-    fn handle_frozen_analog_input(&mut self, info: HeaderInfo, iter: &mut dyn Iterator<Item = (FrozenAnalogInput, u16)>) {
+    fn handle_frozen_analog_input(
+        &mut self,
+        info: HeaderInfo,
+        iter: &mut dyn Iterator<Item = (FrozenAnalogInput, u16)>,
+    ) {
         let n = iter.count();
-        self.rec.lock().unwrap().push(MEv::Other { assoc: self.assoc, what: format!("frozen analog x{} {:?}", n, info.variation) });
+        self.rec.lock().unwrap().push(MEv::Other {
+            assoc: self.assoc,
+            what: format!("frozen analog x{} {:?}", n, info.variation),
+        });
     }
-    fn handle_analog_input_dead_band(&mut self, info: HeaderInfo, iter: &mut dyn Iterator<Item = (AnalogInputDeadBand, u16)>) {
+    fn handle_analog_input_dead_band(
+        &mut self,
+        info: HeaderInfo,
+        iter: &mut dyn Iterator<Item = (AnalogInputDeadBand, u16)>,
+    ) {
         let n = iter.count();
-        self.rec.lock().unwrap().push(MEv::Other { assoc: self.assoc, what: format!("dead band x{} {:?}", n, info.variation) });
+        self.rec.lock().unwrap().push(MEv::Other {
+            assoc: self.assoc,
+            what: format!("dead band x{} {:?}", n, info.variation),
+        });
     }
-    fn handle_analog_output_command_event(&mut self, info: HeaderInfo, iter: &mut dyn Iterator<Item = (AnalogOutputCommandEvent, u16)>) {
+    fn handle_analog_output_command_event(
+        &mut self,
+        info: HeaderInfo,
+        iter: &mut dyn Iterator<Item = (AnalogOutputCommandEvent, u16)>,
+    ) {
         let n = iter.count();
-        self.rec.lock().unwrap().push(MEv::Other { assoc: self.assoc, what: format!("ao command event x{} {:?}", n, info.variation) });
+        self.rec.lock().unwrap().push(MEv::Other {
+            assoc: self.assoc,
+            what: format!("ao command event x{} {:?}", n, info.variation),
+        });
     }
-    fn handle_binary_output_command_event(&mut self, info: HeaderInfo, iter: &mut dyn Iterator<Item = (BinaryOutputCommandEvent, u16)>) {
+    fn handle_binary_output_command_event(
+        &mut self,
+        info: HeaderInfo,
+        iter: &mut dyn Iterator<Item = (BinaryOutputCommandEvent, u16)>,
+    ) {
         let n = iter.count();
-        self.rec.lock().unwrap().push(MEv::Other { assoc: self.assoc, what: format!("bo command event x{} {:?}", n, info.variation) });
+        self.rec.lock().unwrap().push(MEv::Other {
+            assoc: self.assoc,
+            what: format!("bo command event x{} {:?}", n, info.variation),
+        });
     }
-    fn handle_unsigned_integer(&mut self, info: HeaderInfo, iter: &mut dyn Iterator<Item = (UnsignedInteger, u16)>) {
+    fn handle_unsigned_integer(
+        &mut self,
+        info: HeaderInfo,
+        iter: &mut dyn Iterator<Item = (UnsignedInteger, u16)>,
+    ) {
         let n = iter.count();
-        self.rec.lock().unwrap().push(MEv::Other { assoc: self.assoc, what: format!("unsigned x{} {:?}", n, info.variation) });
+        self.rec.lock().unwrap().push(MEv::Other {
+            assoc: self.assoc,
+            what: format!("unsigned x{} {:?}", n, info.variation),
+        });
     }
     fn handle_abs_time(&mut self, _info: HeaderInfo, time: Timestamp) {
-        self.rec.lock().unwrap().push(MEv::AbsTime { assoc: self.assoc, t: time.raw_value() });
+        self.rec.lock().unwrap().push(MEv::AbsTime {
+            assoc: self.assoc,
+            t: time.raw_value(),
+        });
     }
 }
 
@@ -292,7 +485,10 @@ impl AssociationHandler for AHandler {
         let now = kernel::current().map(|c| c.now_ms()).unwrap_or(0);
         let mut r = self.rec.lock().unwrap();
         let t = r.wall_base.map(|b| b.wrapping_add(now));
-        r.push(MEv::GetTime { assoc: self.assoc, t });
+        r.push(MEv::GetTime {
+            assoc: self.assoc,
+            t,
+        });
         t.map(Timestamp::new)
     }
 }
@@ -304,16 +500,34 @@ struct AInfo {
 
 impl AssociationInformation for AInfo {
     fn task_start(&mut self, task_type: TaskType, fc: FunctionCode, seq: Sequence) {
-        self.rec.lock().unwrap().push(MEv::TaskStart { assoc: self.assoc, task: format!("{:?}", task_type), func: fc.as_u8(), seq: seq.value() });
+        self.rec.lock().unwrap().push(MEv::TaskStart {
+            assoc: self.assoc,
+            task: format!("{:?}", task_type),
+            func: fc.as_u8(),
+            seq: seq.value(),
+        });
     }
     fn task_success(&mut self, task_type: TaskType, fc: FunctionCode, seq: Sequence) {
-        self.rec.lock().unwrap().push(MEv::TaskSuccess { assoc: self.assoc, task: format!("{:?}", task_type), func: fc.as_u8(), seq: seq.value() });
+        self.rec.lock().unwrap().push(MEv::TaskSuccess {
+            assoc: self.assoc,
+            task: format!("{:?}", task_type),
+            func: fc.as_u8(),
+            seq: seq.value(),
+        });
     }
     fn task_fail(&mut self, task_type: TaskType, error: TaskError) {
-        self.rec.lock().unwrap().push(MEv::TaskFail { assoc: self.assoc, task: format!("{:?}", task_type), err: format!("{:?}", error) });
+        self.rec.lock().unwrap().push(MEv::TaskFail {
+            assoc: self.assoc,
+            task: format!("{:?}", task_type),
+            err: format!("{:?}", error),
+        });
     }
     fn unsolicited_response(&mut self, is_duplicate: bool, seq: Sequence) {
-        self.rec.lock().unwrap().push(MEv::Unsolicited { assoc: self.assoc, dup: is_duplicate, seq: seq.value() });
+        self.rec.lock().unwrap().push(MEv::Unsolicited {
+            assoc: self.assoc,
+            dup: is_duplicate,
+            seq: seq.value(),
+        });
     }
 }
 
@@ -321,7 +535,10 @@ struct CListener(MRec);
 
 impl Listener<ClientState> for CListener {
     fn update(&mut self, value: ClientState) -> MaybeAsync<()> {
-        self.0.lock().unwrap().push(MEv::Client(format!("{:?}", value)));
+        self.0
+            .lock()
+            .unwrap()
+            .push(MEv::Client(format!("{:?}", value)));
         MaybeAsync::ready(())
     }
 }
@@ -338,11 +555,21 @@ pub struct MasterNode {
 impl MasterNode {
     /// build the real client task + master task and add the configured associations; the channel is left disabled
     pub async fn start(sim: &Sim, cfg: &MasterCfg, net: SimNetwork) -> MasterNode {
-        let rec: MRec = Arc::new(Mutex::new(MRecorder { log: Vec::new(), wall_base: Some(cfg.wall_clock_base) }));
-        let mut mc = MasterChannelConfig::new(EndpointAddress::try_new(cfg.master_addr).expect("master address"));
+        let rec: MRec = Arc::new(Mutex::new(MRecorder {
+            log: Vec::new(),
+            wall_base: if cfg.no_clock { None } else { Some(cfg.wall_clock_base) },
+        }));
+        let mut mc = MasterChannelConfig::new(
+            EndpointAddress::try_new(cfg.master_addr).expect("master address"),
+        );
         mc.tx_buffer_size = BufferSize::new(cfg.tx).expect("tx size");
         if cfg.decode_all {
-            mc.decode_level = DecodeLevel::new(AppDecodeLevel::ObjectValues, TransportDecodeLevel::Payload, LinkDecodeLevel::Payload, PhysDecodeLevel::Data);
+            mc.decode_level = DecodeLevel::new(
+                AppDecodeLevel::ObjectValues,
+                TransportDecodeLevel::Payload,
+                LinkDecodeLevel::Payload,
+                PhysDecodeLevel::Data,
+            );
         }
         let mut options = ConnectOptions::default();
         if let Some(t) = cfg.connect_timeout_ms {
@@ -353,9 +580,17 @@ impl MasterNode {
             Duration::from_millis(cfg.connect_max_ms),
             Duration::from_millis(cfg.reconnect_ms),
         );
-        let handler = SimpleConnectHandler::create(EndpointList::single("127.0.0.1:20000".to_string()), options, strategy);
+        let handler = SimpleConnectHandler::create(
+            EndpointList::single("127.0.0.1:20000".to_string()),
+            options,
+            strategy,
+        );
         let (mut client, channel) = crate::tcp::wire_master_client(
-            LinkModes::stream(if cfg.close_mode { LinkErrorMode::Close } else { LinkErrorMode::Discard }),
+            LinkModes::stream(if cfg.close_mode {
+                LinkErrorMode::Close
+            } else {
+                LinkErrorMode::Discard
+            }),
             ParseOptions::get_static(),
             MasterChannelType::Stream,
             handler,
@@ -397,8 +632,14 @@ impl MasterNode {
                 .add_association(
                     addr,
                     config,
-                    Box::new(Reader { rec: rec.clone(), assoc }),
-                    Box::new(AHandler { rec: rec.clone(), assoc }),
+                    Box::new(Reader {
+                        rec: rec.clone(),
+                        assoc,
+                    }),
+                    Box::new(AHandler {
+                        rec: rec.clone(),
+                        assoc,
+                    }),
                     Box::new(AInfo { rec, assoc }),
                 )
                 .await;
@@ -424,7 +665,10 @@ impl MasterNode {
 
 /// content of octet `i` of block `b` of every file the scripted outstation serves
 pub fn file_octet(block: u32, i: usize) -> u8 {
-    (block.wrapping_mul(31).wrapping_add(i as u32 * 7).wrapping_add(3)) as u8
+    (block
+        .wrapping_mul(31)
+        .wrapping_add(i as u32 * 7)
+        .wrapping_add(3)) as u8
 }
 
 /// recording FileReader; aborts in `opened` (abort_at == Some(0)) or at block abort_at - 1
@@ -436,7 +680,14 @@ pub struct FReader {
 
 impl crate::master::FileReader for FReader {
     fn opened(&mut self, size: u32) -> crate::master::FileAction {
-        self.rec.lock().unwrap().push(MEv::File { id: self.id, what: "opened".to_string(), block: 0, len: size as usize, content_ok: true, detail: String::new() });
+        self.rec.lock().unwrap().push(MEv::File {
+            id: self.id,
+            what: "opened".to_string(),
+            block: 0,
+            len: size as usize,
+            content_ok: true,
+            detail: String::new(),
+        });
         if self.abort_at == Some(0) {
             crate::master::FileAction::Abort
         } else {
@@ -444,18 +695,50 @@ impl crate::master::FileReader for FReader {
         }
     }
 
-    fn block_received(&mut self, block_num: u32, data: &[u8]) -> crate::app::MaybeAsync<crate::master::FileAction> {
-        let content_ok = data.iter().enumerate().all(|(i, x)| *x == file_octet(block_num, i));
-        self.rec.lock().unwrap().push(MEv::File { id: self.id, what: "block".to_string(), block: block_num, len: data.len(), content_ok, detail: String::new() });
-        let action = if self.abort_at == Some(block_num + 1) { crate::master::FileAction::Abort } else { crate::master::FileAction::Continue };
+    fn block_received(
+        &mut self,
+        block_num: u32,
+        data: &[u8],
+    ) -> crate::app::MaybeAsync<crate::master::FileAction> {
+        let content_ok = data
+            .iter()
+            .enumerate()
+            .all(|(i, x)| *x == file_octet(block_num, i));
+        self.rec.lock().unwrap().push(MEv::File {
+            id: self.id,
+            what: "block".to_string(),
+            block: block_num,
+            len: data.len(),
+            content_ok,
+            detail: String::new(),
+        });
+        let action = if self.abort_at == Some(block_num + 1) {
+            crate::master::FileAction::Abort
+        } else {
+            crate::master::FileAction::Continue
+        };
         crate::app::MaybeAsync::ready(action)
     }
 
     fn aborted(&mut self, err: crate::master::FileError) {
-        self.rec.lock().unwrap().push(MEv::File { id: self.id, what: "aborted".to_string(), block: 0, len: 0, content_ok: true, detail: format!("{:?}", err) });
+        self.rec.lock().unwrap().push(MEv::File {
+            id: self.id,
+            what: "aborted".to_string(),
+            block: 0,
+            len: 0,
+            content_ok: true,
+            detail: format!("{:?}", err),
+        });
     }
 
     fn completed(&mut self) {
-        self.rec.lock().unwrap().push(MEv::File { id: self.id, what: "completed".to_string(), block: 0, len: 0, content_ok: true, detail: String::new() });
+        self.rec.lock().unwrap().push(MEv::File {
+            id: self.id,
+            what: "completed".to_string(),
+            block: 0,
+            len: 0,
+            content_ok: true,
+            detail: String::new(),
+        });
     }
 }
